@@ -6,6 +6,7 @@ import (
 	"fmt"
 	"reflect"
 	"runtime"
+	"sort"
 	"strings"
 	"sync"
 	"sync/atomic"
@@ -313,7 +314,11 @@ type settleResult struct {
 	deadlock  bool
 	timedOut  bool
 	frozen    bool
-	where     string // frozen: where the goroutines of the round are
+	// pure (frozen only): every goroutine of the process but the harness's waits for another goroutine and for nothing
+	// else (gInfo.pureWait) - no timer, no runnable goroutine, nothing the harness is still going to do can wake any of
+	// them once every context has ended and every gate is open
+	pure  bool
+	where string // frozen: where the goroutines of the round are
 }
 
 // settle polls goroutine dumps until the phase is quiescent: every launched caller has returned, or is parked in
@@ -362,6 +367,7 @@ func (rx *roundExec) settle(ph *phaseRec) settleResult {
 		snap := takeSnapshot(mon.Seq())
 		res := settleResult{quiescent: true}
 		movable := 0 // goroutines of the process, other than this one, that can continue by themselves
+		impure := 0  // ... or that wait in a select of the library's (which may hold a timer)
 		var where []string
 		for id, g := range snap.gs {
 			if id == rx.self {
@@ -369,6 +375,9 @@ func (rx *roundExec) settle(ph *phaseRec) settleResult {
 			}
 			if !g.stable() {
 				movable++
+			}
+			if !g.pureWait() {
+				impure++
 			}
 			if rx.base[id] || rx.gids[id] {
 				continue
@@ -459,7 +468,9 @@ func (rx *roundExec) settle(ph *phaseRec) settleResult {
 		if res.quiescent {
 			for _, c := range ph.Calls {
 				if c.parked && c.topKFR && c.ParkedSeq == 0 {
-					c.ParkedSeq = snap.seq
+					// (the stamp taken AFTER the dump: a download that reached the endpoint between the snapshot's first
+					// stamp and the dump itself did not start "afterwards")
+					c.ParkedSeq = snap.end
 				}
 				if c.held && c.HeldSeq == 0 {
 					c.HeldSeq = c.heldSeq.Load()
@@ -484,6 +495,11 @@ func (rx *roundExec) settle(ph *phaseRec) settleResult {
 		}
 		if frozen >= frozenSnapshots {
 			res.frozen = true
+			res.pure = impure == 0
+			sort.Strings(where)
+			if len(where) > 6 {
+				where = append(where[:6], fmt.Sprintf("... and %d more", len(where)-6))
+			}
 			res.where = strings.Join(where, "; ")
 			if res.where == "" {
 				res.where = fmt.Sprintf("%d requests wait at the endpoint, %d goroutines of the round seen there", rx.srv.Waiting(), res.atGate+callerAtGate+stuckAtGate)
@@ -567,6 +583,7 @@ func (rx *roundExec) runPhase(ps phaseSpec) (*phaseRec, bool) {
 		}
 		ph.Downloads = rx.srv.Log()
 	}
+	var stuckEarly *settleResult
 	for _, a := range ps.Actions {
 		switch a.Op {
 		case "arrive":
@@ -599,9 +616,15 @@ func (rx *roundExec) runPhase(ps phaseSpec) (*phaseRec, bool) {
 		}
 		if !a.NoSettle {
 			res := rx.settle(ph)
-			if res.timedOut || res.frozen {
+			if res.timedOut {
 				abandon(res)
 				return ph, false
+			}
+			if res.frozen {
+				// nothing can move in a state the harness does not know: the rest of the schedule is skipped; what the end of
+				// the phase (every gate open, every context ended) makes of it decides between "inconclusive" and a deadlock
+				stuckEarly = &res
+				break
 			}
 			if res.deadlock {
 				ph.Deadlock = fmt.Sprintf("after action %s(%d): %d callers with live contexts are parked in keysFromRemote, no download goroutine exists and no request is pending at the endpoint", a.Op, a.I, res.parked)
@@ -615,7 +638,7 @@ func (rx *roundExec) runPhase(ps phaseSpec) (*phaseRec, bool) {
 	}
 	// end of phase: launch whoever the schedule forgot, let every held caller go, open all gates, wait for the barrier
 	for _, c := range ph.Calls {
-		if !c.Launched {
+		if !c.Launched && stuckEarly == nil {
 			rx.launch(c)
 		}
 		c.doResume()
@@ -623,13 +646,15 @@ func (rx *roundExec) runPhase(ps phaseSpec) (*phaseRec, bool) {
 	if ph.Overlap == "" {
 		rx.srv.ReleaseAll()
 	}
-	if ph.Deadlock == "" && ph.Overlap == "" {
+	if ph.Deadlock == "" && ph.Overlap == "" && stuckEarly == nil {
 		res := rx.settle(ph)
-		if res.timedOut || res.frozen {
+		if res.timedOut {
 			abandon(res)
 			return ph, false
 		}
-		if res.deadlock || res.parked > 0 {
+		if res.frozen {
+			stuckEarly = &res
+		} else if res.deadlock || res.parked > 0 {
 			ph.Deadlock = fmt.Sprintf("at the end of the phase (all gates open): %d callers with live contexts are parked in keysFromRemote, no download goroutine exists and no request is pending at the endpoint", res.parked)
 		}
 	}
@@ -639,11 +664,39 @@ func (rx *roundExec) runPhase(ps phaseSpec) (*phaseRec, bool) {
 		endCtx(c)
 	}
 	res := rx.settle(ph)
-	if res.timedOut || res.frozen {
+	switch {
+	case res.timedOut:
 		abandon(res)
+		return ph, false
+	case res.frozen && !res.pure:
+		abandon(res)
+		return ph, false
+	case res.frozen:
+		// State-based deadlock witness: every context has ended, every gate is open, every held caller was let go, and
+		// every goroutine of the process waits for another one (locks, conditions, plain channel operations; no select of
+		// the library's, no timer): the calls that have not returned never will.
+		n := 0
+		for _, c := range ph.Calls {
+			if c.Launched && !c.returned.Load() {
+				n++
+			}
+		}
+		ph.Deadlock = fmt.Sprintf("at the end of the phase (all gates open, every caller's context ended): %d calls are still blocked inside VerifySignature and every other goroutine of the process waits for another goroutine as well (no timer, no select of the library's): nothing can wake them [%s]", n, res.where)
+	case stuckEarly != nil:
+		// it froze in the middle of the phase and came loose when the contexts ended: not a state this check can judge
+		ph.Frozen = stuckEarly.where
+		ph.Downloads = rx.srv.Log()
+		for _, c := range ph.Calls {
+			if c.returned.Load() {
+				<-c.done
+			}
+		}
 		return ph, false
 	}
 	for i, c := range ph.Calls {
+		if !c.Launched {
+			continue
+		}
 		if c.returned.Load() {
 			<-c.done
 			if c.preemptDone != nil {
